@@ -526,7 +526,15 @@ def rule_direct_solver(rep: Report, repo: Repo):
         if len(loops) != 1:
             raise AnalysisError(R, "grouped_greens_functions: loop over energy groups not found")
         gl = loops[0]
-        ok_iter = norm(gl.iter) == "_group_close_energies(subspace_eigenvalues, eigenvalue_atol)" and norm(gl.target) == "group"
+        # the enclosing loop gives the names of (energies, right kernel basis, left kernel basis) of one subspace
+        ol = getattr(gl, "_parent", None)
+        if not (isinstance(ol, ast.For) and isinstance(ol.target, ast.Tuple) and len(ol.target.elts) == 3 and isinstance(ol.iter, ast.Call)
+                and call_name(ol.iter) == "zip" and [norm(a) for a in ol.iter.args] == ["eigenvalues", "right_kernel_subspaces", "left_kernel_subspaces"]
+                and isinstance(gl.target, ast.Name)):
+            raise AnalysisError(R, "grouped_greens_functions: loop over (energies, right kernels, left kernels) of the subspaces not understood")
+        EN, RK, LK = (norm(e) for e in ol.target.elts)
+        GRP = gl.target.id
+        ok_iter = norm(gl.iter) == f"_group_close_energies({EN}, eigenvalue_atol)"
         rep.check(ok_iter, R, f"{MOD}::solve_sylvester_direct::grouped_greens_functions groups the block's energies with eigenvalue_atol", norm(gl.iter), loc(gl))
         for flag in (True, False):
             def atom(n, flag=flag):
@@ -547,17 +555,17 @@ def rule_direct_solver(rep: Report, repo: Repo):
                 args = [rtext(a, env) for a in c.args]
                 kw = {k.arg: rtext(k.value, env) for k in c.keywords if k.arg}
                 cj = ".conj()" if flag else ""
-                want_k = f"right_kernel_subspace[:, group]{cj}"
-                want_l = f"left_kernel_subspace[:, group]{cj}"
+                want_k = f"{RK}[:, {GRP}]{cj}"
+                want_l = f"{LK}[:, {GRP}]{cj}"
                 tag = "transposed problem (conjugated kernels)" if flag else "direct problem"
-                ok = args[:2] == ["operator", "subspace_eigenvalues[group[0]]"]
+                ok = args[:2] == ["operator", f"{EN}[{GRP}[0]]"]
                 inst = f"{MOD}::solve_sylvester_direct::grouped_greens_functions [{tag}] Green's function of `operator` at the group's own energy"
                 if ok:
                     rep.ok(R, inst, f"energy argument resolves to {args[1]}", loc(c))
                 else:
                     rep.fail(R, f"{MOD}::solve_sylvester_direct::grouped_greens_functions [{tag}] calls direct_greens_function({', '.join(args[:2])}, ...)",
                              "the transposed problem (E - H_0^T) x^T = y^T has conjugated kernel vectors but the SAME energy E "
-                             "(transpose, not adjoint); required arguments: operator, subspace_eigenvalues[group[0]]", loc(c))
+                             f"(transpose, not adjoint); required arguments: operator, {EN}[{GRP}[0]]", loc(c))
                 okk = kw.get("kernel_vectors") == want_k and kw.get("left_kernel_vectors") == want_l
                 rep.check(okk, R, f"{MOD}::solve_sylvester_direct::grouped_greens_functions [{tag}] kernel vectors are the group's columns"
                           + (", conjugated" if flag else ""), f"kernel={kw.get('kernel_vectors')}, left={kw.get('left_kernel_vectors')}", loc(c))
@@ -609,6 +617,9 @@ def rule_greens_function(rep: Report, repo: Repo):
         if isinstance(e, (ast.Tuple, ast.List)):
             r = [derived(x, depth + 1) for x in e.elts]
             return None if None in r else all(r)
+        if isinstance(e, ast.IfExp):
+            r = [derived(e.body, depth + 1), derived(e.orelse, depth + 1)]
+            return None if None in r else all(r)
         if isinstance(e, ast.BinOp) and norm(e) == f"kernel_projector @ {param}":
             return True
         if isinstance(e, ast.Name):
@@ -659,8 +670,11 @@ def rule_greens_function(rep: Report, repo: Repo):
                     return rhs_complex
                 return None
             kinds = set()
+            from .e7b import _pick_ifexp
             for o in _outcomes(f.body, None, env={}, atom=atom, expand=False):
                 for kind, st, rv in o.seq:
+                    if kind == "assign" and rv is not None:
+                        rv = _pick_ifexp(rv, atom)
                     if kind == "assign" and isinstance(rv, ast.Tuple):
                         parts = [x for x in rv.elts]
                         if len(parts) == 2 and all(isinstance(x, ast.Attribute) for x in parts) and [x.attr for x in parts] == ["real", "imag"]:
@@ -671,16 +685,29 @@ def rule_greens_function(rep: Report, repo: Repo):
                             kinds.add("other:" + norm(rv)[:40])
             table[(rhs_complex, fact_complex)] = sorted(kinds)
     want = {(False, False): ["single"], (False, True): ["single"], (True, True): ["single"], (True, False): ["split"]}
-    comb = [n for n in own_nodes(f) if isinstance(n, ast.IfExp)]
-    ok_comb = False
-    for c in comb:
-        sols = {n_.id for n_ in ast.walk(c) if isinstance(n_, ast.Name)}
-        for S in sols:
-            if norm(c) == f"{S}[0] if len({S}) == 1 else {S}[0] + 1j * {S}[1]":
-                ok_comb = True
+    # recombination: one solution is returned as it is, two as re + 1j * im
+    comb = {}
+    for n_sol in (1, 2):
+        def atom2(n, n_sol=n_sol):
+            if isinstance(n, ast.Compare) and len(n.ops) == 1 and isinstance(n.left, ast.Call) and call_name(n.left) == "len" \
+                    and isinstance(n.comparators[0], ast.Constant) and isinstance(n.comparators[0].value, int):
+                k = n.comparators[0].value
+                return {ast.Eq: n_sol == k, ast.NotEq: n_sol != k, ast.Gt: n_sol > k, ast.Lt: n_sol < k, ast.GtE: n_sol >= k,
+                        ast.LtE: n_sol <= k}.get(type(n.ops[0]))
+            return None
+        vals = set()
+        len_names = {c.args[0].id for c in own_nodes(f) if isinstance(c, ast.Call) and call_name(c) == "len" and len(c.args) == 1
+                     and isinstance(c.args[0], ast.Name)}
+        for o in _outcomes(f.body, None, env={}, atom=atom2, expand=False, opaque=(X, *len_names)):
+            if o.kind == "return" and isinstance(o.value, ast.BinOp) and isinstance(o.value.op, ast.MatMult) and norm(o.value.left) == "kernel_projector":
+                vals.add(norm(_pick_ifexp(o.value.right, atom2)))
+        comb[n_sol] = sorted(vals)
+    import re as _re2
+    m1 = _re2.fullmatch(r"(.+)\[0\]", comb[1][0]) if len(comb[1]) == 1 else None
+    ok_comb = bool(m1) and comb[2] == [f"{m1.group(1)}[0] + 1j * {m1.group(1)}[1]"]
     rep.check(table == want and ok_comb, R,
               "linalg::direct_greens_function::greens_function complex right-hand side with a real factorisation: solve real and imaginary parts, recombine as re + i*im",
-              f"split chosen for (rhs complex, factorisation complex): {table}", loc(f))
+              f"split chosen for (rhs complex, factorisation complex): {table}; recombination {comb}", loc(f))
     # matrix orientation E - H, projector arguments
     mats = [n for n in own_nodes(outer) if isinstance(n, ast.Assign) and norm(n.targets[0]) == "mat"]
     ok = bool(mats) and isinstance(mats[0].value, ast.BinOp) and isinstance(mats[0].value.op, ast.Sub) and norm(mats[0].value.right) == "h" \
@@ -689,19 +716,43 @@ def rule_greens_function(rep: Report, repo: Repo):
     ok = len(mats) == 2 and norm(mats[1].value) == "_constrain_matrix(mat, pivot_rows)"
     rep.check(ok, R, "linalg::direct_greens_function constrains the pivot equations of E - H", "", loc(outer))
     kp = [n for n in own_nodes(outer) if isinstance(n, ast.Assign) and norm(n.targets[0]) == "kernel_projector"]
-    ok = len(kp) == 1 and norm(kp[0].value) == "ComplementProjector(kernel_vectors, left_kernel_vectors)"
+    ok = len(kp) == 1 and norm(kp[0].value) in ("ComplementProjector(kernel_vectors, left_kernel_vectors)",
+                                                "ComplementProjector(vecs=kernel_vectors, left_vecs=left_kernel_vectors)",
+                                                "ComplementProjector(kernel_vectors, left_vecs=left_kernel_vectors)",
+                                                "ComplementProjector(left_vecs=left_kernel_vectors, vecs=kernel_vectors)")
     rep.check(ok, R, "linalg::direct_greens_function kernel projector P = 1 - K K_left^H", "", loc(outer))
     pv = [n for n in own_nodes(outer) if isinstance(n, ast.Assign) and norm(n.targets[0]) == "pivot_rows"]
     ok = len(pv) == 1 and norm(pv[0].value) == "_kernel_pivot_rows(kernel_vectors)"
     rep.check(ok, R, "linalg::direct_greens_function pivots are chosen from the right kernel vectors", "", loc(outer))
     cm = repo.find("linalg::_constrain_matrix", R)
-    body = {norm(s) for s in own_nodes(cm) if isinstance(s, ast.Assign)}
-    need = ["keep = ~pivot_mask[constrained_coo.row]", "rows = np.concatenate((constrained_coo.row[keep], pivot_rows))",
-            "cols = np.concatenate((constrained_coo.col[keep], pivot_rows))"]
-    rep.check(all(n in body for n in need), R, "linalg::_constrain_matrix drops the pivot rows and adds unit diagonal entries on them", "", repo.loc("linalg", cm))
-    fresh = [s for s in own_nodes(cm) if isinstance(s, ast.Assign) and norm(s.targets[0]) == "constrained"]
-    rep.check(len(fresh) == 1 and norm(fresh[0].value) == "sparse.csr_array(mat)", R,
-              "linalg::_constrain_matrix works on its own csr copy", "", repo.loc("linalg", cm))
+    from .resolve import env_at as _env_at, rtext as _rtext
+    from .sem import canon as _canon2
+    masks = [n for n in own_nodes(cm) if isinstance(n, ast.Assign) and isinstance(n.targets[0], ast.Subscript)
+             and norm(n.targets[0].slice) == "pivot_rows" and norm(n.value) == "True" and isinstance(n.targets[0].value, ast.Name)]
+    if len(masks) != 1:
+        raise AnalysisError(R, "_constrain_matrix: marking of the pivot rows (`mask[pivot_rows] = True`) not found")
+    M = masks[0].targets[0].value.id
+    minit = [n for n in own_nodes(cm) if isinstance(n, ast.Assign) and any(norm(t) == M for t in n.targets)]
+    C = "sparse.csr_array(mat)"
+    ok_mask = len(minit) == 1 and _rtext(minit[0].value, _env_at(minit[0], cm)) in (f"np.zeros({C}.shape[0], dtype=bool)", "np.zeros(mat.shape[0], dtype=bool)")
+    rets_cm = [n for n in own_nodes(cm) if isinstance(n, ast.Return)]
+    nonempty = [r_ for r_ in rets_cm if r_ is cm.body[-1]]
+    early = [r_ for r_ in rets_cm if r_ is not cm.body[-1]]
+    if len(nonempty) != 1:
+        raise AnalysisError(R, "_constrain_matrix: final return not found")
+    COO = f"{C}.tocoo(copy=False)"
+    KEEP = f"~{M}[{COO}.row]"
+    want_ret = (f"sparse.csr_array((np.concatenate(({COO}.data[{KEEP}], np.ones(len(pivot_rows), dtype={C}.dtype))), "
+                f"(np.concatenate(({COO}.row[{KEEP}], pivot_rows)), np.concatenate(({COO}.col[{KEEP}], pivot_rows)))), shape={C}.shape)")
+    got_ret = _rtext(nonempty[0].value, _env_at(nonempty[0], cm))
+    got_cmp = got_ret.replace(".tocoo()", ".tocoo(copy=False)")
+    rep.check(ok_mask and got_cmp == want_ret, R, "linalg::_constrain_matrix drops the pivot rows and adds unit diagonal entries on them",
+              got_ret[:200], repo.loc("linalg", cm))
+    ok_early = all(_rtext(r_.value, _env_at(r_, cm)) == C and isinstance(getattr(r_, "_parent", None), ast.If)
+                   and norm(_canon2(r_._parent.test)) in ("pivot_rows.size == 0", "not pivot_rows.size", "0 == pivot_rows.size", "len(pivot_rows) == 0")
+                   for r_ in early)
+    rep.check(ok_early and C in got_ret, R, "linalg::_constrain_matrix works on its own csr copy",
+              "without pivots the csr copy itself is returned", repo.loc("linalg", cm))
 
 
 # ---------------------------------------------------------------------------
@@ -724,59 +775,7 @@ def rule_kpm_structure(rep: Report, repo: Repo):
     from .resolve import rtext, run_block
     from .e2 import affine
 
-    # -- kpm.greens_function: Chebyshev expansion of (E - H)^-1 v and residual orientation -----------
-    g = repo.find("kpm::greens_function", R)
-    loc = lambda n: repo.loc("kpm", n)
-    res = [n for n in ast.walk(g) if isinstance(n, ast.Assign) and norm(n.targets[0]) == "residue" and isinstance(n.value, ast.Call)]
-    ok = False
-    if len(res) == 1:
-        arg = res[0].value.args[0] if res[0].value.args else None
-        # residual of (E - H) x = v is  v - (E x - H x) = (H x - E x) + v   (any association / order of the three terms)
-        terms = {}
-        def collect(e, sign):
-            if isinstance(e, ast.BinOp) and isinstance(e.op, (ast.Add, ast.Sub)):
-                collect(e.left, sign)
-                collect(e.right, sign if isinstance(e.op, ast.Add) else -sign)
-            elif isinstance(e, ast.UnaryOp) and isinstance(e.op, ast.USub):
-                collect(e.operand, -sign)
-            else:
-                terms[norm(e)] = terms.get(norm(e), 0) + sign
-        if arg is not None:
-            collect(arg, 1)
-            want = {"hamiltonian @ sol": 1, "energy * sol": -1, "vector": 1}
-            ok = call_name(res[0].value) in ("np.linalg.norm",) and (terms == want or terms == {k: -v for k, v in want.items()}
-                                                                     or terms == {"hamiltonian @ sol": 1, "sol * energy": -1, "vector": 1})
-    rep.check(ok, R, "kpm::greens_function accepts the solution by the residual of (E - H) x = v", norm(res[0].value)[:90] if res else "missing", loc(g))
-    loop = [n for n in ast.walk(g) if isinstance(n, ast.While)]
-    ok = len(loop) == 1 and norm(loop[0].test) == "residue > atol"
-    warn = [n for n in ast.walk(g) if isinstance(n, ast.If) and norm(n.test) == "num_moments > max_moments"]
-    ok2 = len(warn) == 1 and any(isinstance(x, ast.Call) and call_name(x) == "warn" for x in ast.walk(warn[0])) and isinstance(warn[0].body[-1], ast.Break)
-    rep.check(ok and ok2, R, "kpm::greens_function iterates until the residual is below atol or warns (RuntimeWarning) at max_moments",
-              "", loc(g))
-    asg = {norm(n.targets[0]): n for n in ast.walk(g) if isinstance(n, ast.Assign) and isinstance(n.targets[0], ast.Name)}
-    ok = norm(asg["prefactor"].value) == "-2 / np.sqrt(1 - energy ** 2)" if "prefactor" in asg else False
-    ok = ok and norm(asg["coef"].value) == "prefactor * np.sin(np.arange(num_moments) * np.arccos(energy))" if "coef" in asg else False
-    aug = [norm(n) for n in ast.walk(g) if isinstance(n, ast.AugAssign)]
-    ok = ok and "coef[0] /= 2" in aug and "coef *= jackson_kernel(num_moments)" in aug
-    rep.check(ok, R, "kpm::greens_function Chebyshev coefficients of 1/(E - x): -2 sin(n arccos E)/sqrt(1 - E^2), halved at n = 0, Jackson-damped",
-              "; ".join(aug), loc(g))
-    sol = asg.get("sol")
-    ok = sol is not None and norm(sol.value) == "sum((vec * c for c, vec in zip(coef, kpm_vectors(hamiltonian, vector))))"
-    rep.check(ok, R, "kpm::greens_function solution = sum_n c_n T_n(H) v", norm(sol.value) if sol is not None else "", loc(g))
-    kv = repo.find("kpm::kpm_vectors", R)
-    ys = [norm(n.value) for n in ast.walk(kv) if isinstance(n, ast.Yield)]
-    rec = [n for n in ast.walk(kv) if isinstance(n, ast.Assign) and isinstance(n.targets[0], ast.Tuple)]
-    ok = ys[:2] == ["(alpha_prev := vector)", "(alpha := (hamiltonian @ alpha_prev))"] and len(rec) == 1 \
-        and norm(rec[0].targets[0]) == "(alpha, alpha_prev)" and norm(rec[0].value) == "(2 * hamiltonian @ alpha - alpha_prev, alpha)"
-    rep.check(ok, R, "kpm::kpm_vectors Chebyshev recurrence T_0 v = v, T_1 v = H v, T_{n+1} v = 2 H T_n v - T_{n-1} v", str(ys), repo.loc("kpm", kv))
-    rs = repo.find("kpm::rescale", R)
-    ra = {norm(n.targets[0]): norm(n.value) for n in ast.walk(rs) if isinstance(n, ast.Assign) and isinstance(n.targets[0], ast.Name)}
-    ok = ra.get("a") == "np.abs(lmax - lmin) / (2.0 - eps)" and ra.get("b") == "(lmax + lmin) / 2.0"
-    rets = [norm(n.value) for n in ast.walk(rs) if isinstance(n, ast.Return)]
-    ok = ok and rets == ["(rescaled_h, (a, b))"]
-    resc = [v for k, v in ra.items() if k == "rescaled_h"]
-    allh = [norm(n.value) for n in ast.walk(rs) if isinstance(n, ast.Assign) and norm(n.targets[0]) == "rescaled_h"]
-    ok = ok and all(v.endswith("/ a") and "- b *" in v for v in allh) and len(allh) == 2
-    rep.check(ok, R, "kpm::rescale returns (H - b)/a with a = bandwidth/(2 - eps), b = band centre", str(allh), repo.loc("kpm", rs))
+    from .e7b import rule_kpm_numerics
+    rule_kpm_numerics(rep, repo)
     from .e7b import rule_kpm_wiring
     rule_kpm_wiring(rep, repo)
